@@ -469,7 +469,10 @@ func (a Int) divMod(b Int) (Object, Object, error) {
 	if b == 0 {
 		return nil, nil, divisionByZero
 	}
-	// Can't overflow
+	if a == IntMin && b == -1 {
+		// the only quotient that does not fit an int64
+		return (*BigInt)(big.NewInt(int64(a))).divMod((*BigInt)(big.NewInt(int64(b))))
+	}
 	result, remainder := Int(a/b), Int(a%b)
 	// Implement floor division
 	negativeResult := (a < 0)
